@@ -163,7 +163,11 @@ def roundtrip_plan(chk, exe, mode, shapes, builds_extra=()):
     ev1, _ = run_driver(exe, enc_lines, timeout=900)
     outs = {e['id']: e for e in ev1 if e.get('e') == 'Enc'}
     groups = []
-    for grp in chunks(list(range(len(shapes))), 12):
+    for i, sh in enumerate(shapes):
+        if sh['mlen'] >= 100000 and f"e{i}" in outs:      # very long: one event per execution so the shards share them
+            groups.append([enc_lines[i]])
+            groups.append([dec_line(f"d{i}", mode, sh, datas[i], bytes(outs[f"e{i}"]['out']))])
+    for grp in chunks([i for i in range(len(shapes)) if shapes[i]['mlen'] < 100000], 12):
         g = []
         for i in grp:
             g.append(enc_lines[i])
@@ -193,6 +197,8 @@ def check_roundtrip(chk, mode):
         # SIV costs two passes per call: the quick tier keeps every other shape of the dense (adlen, mlen) window
         shapes = [s for s in shapes if s['mlen'] > 40 or s['adlen'] > 20 or s['oc'] or s['om'] or s['pl'] == 's'
                   or (s['adlen'] + s['mlen'] + s['alias'] + s['v'] // 64) % 2 == 0]
+    if mode == 'aead':
+        shapes += tlc_plan(chk.wd, 'Plan_Cipher', dict(FAMILY='xlong', TIER=chk.tier))
     chk.cov['plan_shapes'] = len(shapes)
     groups, faults = roundtrip_plan(chk, exe, mode, shapes)
     execs, lines = run_groups(chk, exe, groups)
@@ -421,6 +427,15 @@ def tamper_part(chk, exe, mode):
                 g.append(dec_line(f"{sid}-valid-adj1", mode, sh, d, c) + " adj=1")
                 g.append(dec_line(f"{sid}-valid-adj2", mode, sh, d, c) + " adj=2")
                 g.append(dec_line(f"{sid}-bad-adj1", mode, sh, d, flip(c, 8 * mlen + 9)) + " adj=1")
+                # arguments kept in one arena, touching the output: [ad][output], [output][nonce], ad == output with adlen 0
+                for lay in (2, 3, 4):
+                    g.append(dec_line(f"{sid}-valid-lay{lay}", mode, sh, d, c) + f" lay={lay}")
+                    g.append(dec_line(f"{sid}-bad-lay{lay}", mode, sh, d, flip(c, 8 * mlen + 3 + lay)) + f" lay={lay}")
+            # the datagram layout [nonce][ad][packet], decrypted in place
+            g.append(dec_line(f"{sid}-valid-lay1", mode, sh, d, c) + " lay=1")
+            g.append(dec_line(f"{sid}-bad-lay1", mode, sh, d, flip(c, 8 * mlen + 17)) + " lay=1")
+            if mlen >= 1:
+                g.append(dec_line(f"{sid}-badbody-lay1", mode, sh, d, flip(c, 0)) + " lay=1")
         elif t == 9:
             for cl in range(8):
                 g.append(dec_line(f"{sid}-clen{cl}", mode, sh, d, c[:cl] if cl <= len(c) else c + bytes(cl - len(c)),
@@ -472,6 +487,26 @@ def check_C03(chk):
     chk.sample(execs[0][1])
     # (C) tampered packets through the real decrypt functions
     tamper_part(chk, exe, 'aead')
+    # (D) packets above 2^18 bytes: genuine ones are accepted, a flip far into the body, or a short genuine packet with
+    #     2^18 bytes of junk put between body and tag, is rejected (one event per execution: ~80 s of TLC each, in parallel)
+    xl = []
+    for sh in tlc_plan(chk.wd, 'Plan_Cipher', dict(FAMILY='xlong', TIER='quick')):
+        d = shape_data(rr, sh)
+        ev1, _ = run_driver(exe, [enc_line("xe", 'aead', sh, d)], timeout=600)
+        c = next((bytes(e['out']) for e in ev1 if e.get('e') == 'Enc'), None)
+        if c is None:
+            continue
+        sid = f"xl{sh['v']}"
+        xl.append([dec_line(f"{sid}-valid", 'aead', sh, d, c)])
+        xl.append([dec_line(f"{sid}-farflip", 'aead', sh, d, flip(c, 8 * (sh['mlen'] - 77) + 3))])
+        short = dict(d, m=d['m'][:23])
+        ev2, _ = run_driver(exe, [enc_line("xs", 'aead', sh, short)], timeout=600)
+        cs = next((bytes(e['out']) for e in ev2 if e.get('e') == 'Enc'), None)
+        if cs is not None:
+            xl.append([dec_line(f"{sid}-junk", 'aead', sh, short, cs[:23] + rr.bytes(262144) + cs[23:])])
+    xexecs, _ = run_groups(chk, exe, xl)
+    judge(chk, exe, xexecs, lambda xi: [f"reset id=x{xi}"] + xl[xi])
+    chk.cov['packets_above_2^18_bytes'] = len(xl)
     if chk.thorough:
         # associated data of 4 GiB + 5 bytes must not be taken for 5 bytes (about a minute each, run side by side)
         huge = [f"enchuge id=hugead-{v}-{n} mode=aead v={v} adlen={n}" for v in (128, 192, 256) for n in (5, (1 << 32) + 5)]
